@@ -88,6 +88,8 @@ def main():
     lean_module = getattr(mod, 'LEAN_MODULE', 'SqlProps.' + prop)
     lean_rel = lean_module.replace('.', '/') + '.lean'
     build_out = ''
+    # theorems of other property modules that this property also rests on: built and audited with it
+    also = list(getattr(mod, 'ALSO_THEOREMS', []))
     with Lock('build'):
         ok, msg = translate()
         if not ok:
@@ -103,7 +105,7 @@ def main():
                 if 'SqlModel/Generated/' + gname in closure:
                     broken.append(('translator:' + gname, gmsg[:300]))
         if not a.no_build:
-            okb, build_out = lake_build([lean_module])
+            okb, build_out = lake_build([lean_module] + [m for m, _ in also])
             if not okb:
                 errs = parse_build_errors(build_out)
                 thms = theorems_of(lean_rel) if os.path.exists(os.path.join(LEAN, lean_rel)) else []
@@ -129,6 +131,13 @@ def main():
     audit_problems = []
     if not broken:
         axioms, aout = audit_axioms(lean_module, thms)
+        for amod, anames in also:
+            athms = [(n, 0) for n in anames]
+            ax2, _ = audit_axioms(amod, athms)
+            axioms.update(ax2)
+            thms = thms + athms
+            hits2 = forbidden_tokens(proof_sources(amod.replace('.', '/') + '.lean'))
+            audit_problems += hits2
         for name, _ in thms:
             ax = axioms.get(name)
             if ax is None:
